@@ -27,7 +27,7 @@ class RunTooBig(BaseException):
 
 
 MAX_ENTERS = 4000
-RD_KINDS = ("raise_any", "raise_after", "bad_var", "bad_entity", "bad_period", "add_divide", "bad_option")
+RD_KINDS = ("bad_period_long", "raise_any", "raise_after", "bad_var", "bad_entity", "bad_period", "add_divide", "bad_option")
 LEAVE_KINDS = ("raise_any", "raise", "bad_len", "bad_dtype", "bad_enum")
 
 
@@ -63,11 +63,20 @@ class Frame:
             elif kind == "bad_period":
                 period = fault["period"]
                 options = None
+            elif kind == "bad_period_long":
+                # a day-defined variable asked for a whole month: accepted by the period
+                # check, refused when the value is stored.  Not while the variable is
+                # being computed further up (the spiral heuristic would answer first).
+                if any(f.var == var and not f.done for f in ctx.frames):
+                    fault = None
+                else:
+                    period = fault["period"]
+                    options = None
             elif kind == "add_divide":
                 options = ["ADD", "DIVIDE"]
             elif kind == "bad_option":
                 options = ["LAGRANGIAN"]
-            if kind != "raise_after":
+            if fault is not None and kind != "raise_after":
                 ctx.fired.append((site, kind))  # (raise_any fires here, raises after the read)
         rec = [var, period, opt, None, True]
         self.reads.append(rec)
